@@ -50,12 +50,16 @@ package ctree
 //@   allocates Tree
 //@   ensures fresh(res0) && res0 != nil && res0.leafBranch == val
 
+// A leaf handle is the node itself (type Leaf Tree): reading takes the node's read lock, replacing the value its WRITE
+// lock (the monitor Tree.mu governs accesses through either type).
 //@ func (*Leaf).Value
 //@   props C09 C10 C12
+//@   locks l
 //@   ensures (l == nil ==> res0 == nil) && (l != nil ==> res0 == l.leafBranch)
 //@ func (*Leaf).Update
 //@   props C09 C10 C12
-//@   requires l != nil
+//@   locks l
+//@   requires l != nil && PlainValue(val)
 //@   modifies l.leafBranch
 //@   ensures l.leafBranch == val
 
@@ -298,6 +302,7 @@ package ctree
 //@   requires t != nil && TreeWf() && condition != nil && f != nil
 //@   modifies ghost condCalls, ghost delCalls, mapheap(Kids(t)), t.leafBranch
 //@   assert at call (*Tree).internalDelete#0: [delete-step-on-the-root-under-its-write-lock C09 C10] wheld(t.mu) && arg0 == t && arg1 == path && !arg4
+//@   ensures [the-delete-step-always-runs-on-the-root-whatever-it-holds C09] hits("call (*Tree).internalDelete#0") == old(hits("call (*Tree).internalDelete#0")) + 1
 //@   ensures [tree-stays-wf] TreeWf()
 //@ func param condition in (*Tree).WalkDeleted (v)
 //@   effect condCalls := condCalls + 1
@@ -312,6 +317,7 @@ package ctree
 //@   requires t != nil && TreeWf() && condition != nil
 //@   modifies ghost condCalls, ghost delCalls, mapheap(Kids(t)), t.leafBranch
 //@   assert at call (*Tree).internalDelete#0: [delete-step-on-the-root-under-its-write-lock C09 C10] wheld(t.mu) && arg0 == t && arg1 == subpath && arg4
+//@   ensures [the-delete-step-always-runs-on-the-root-whatever-it-holds C09] hits("call (*Tree).internalDelete#0") == old(hits("call (*Tree).internalDelete#0")) + 1
 //@   ensures [tree-stays-wf] TreeWf()
 //@   ensures [empty-tree-deletes-nothing C09] old(t.leafBranch) == nil ==> len(res0) == 0 && t.leafBranch == nil
 //@   ensures [one-returned-path-per-deleted-leaf C09] len(res0) == delCalls - old(delCalls)
